@@ -21,10 +21,10 @@ PID = "C06"
 
 OPS = {"mul2", "mul3", "add2", "add3", "pow", "abs", "min2", "max2", "exp"}
 CFG = {
-    "quick": dict(MaxLen=5, LeafNames={"n0", "n2", "nh", "nan", "m", "s", "q0m", "q2", "xs", "ts", "ks", "qang", "dft", "dLq"},
+    "quick": dict(MaxLen=5, LeafNames={"n0", "n2", "nh", "nan", "m", "s", "q0m", "q2", "xs", "ts", "ks", "qang", "dft", "dgxt", "dLq", "fdx"},
                   OpNames={"mul2", "add2", "add3", "pow", "abs", "min2", "exp", "gapp"}),
     "thorough": dict(MaxLen=5, LeafNames={"n0", "n1", "n2", "n3", "nm1", "nh", "oo", "nan", "m", "km", "s", "kg", "q2m", "q0",
-                                          "q0m", "qoos", "q2", "xs", "ys", "ts", "ks", "phis", "qang", "ps", "ft", "dft", "d2ft", "dgxt", "dLq"},
+                                          "q0m", "qoos", "q2", "xs", "ys", "ts", "ks", "phis", "qang", "ps", "ft", "dft", "d2ft", "dgxt", "dLq", "fdx"},
                      OpNames=OPS | {"gapp"}),
 }
 DEEP = {
@@ -63,20 +63,23 @@ def _init():
     lagr = Function("L", [ft, t], units.energy)
     dlq = sp.Derivative(lagr(ft, t), ft)
     gfun = Function("G", None, units.energy)
+    from symplyphysics.core.operations.symbolic import FiniteDifference
+    fdx = FiniteDifference(x)
     leaves.update({
         "q2": Quantity(2), "q0m": Quantity(0, dimension=units.length), "qoos": Quantity(sp.oo, dimension=units.time),
         "xs": x, "ys": y, "ts": t, "ks": k, "phis": phi, "ps": p, "ft": ft, "dft": dft, "d2ft": d2ft, "dgxt": dgxt, "dLq": dlq,
+        "fdx": fdx,
     })
     global _GFUN  # pylint: disable=global-statement
     _GFUN = gfun
     _L = leaves
     _ASSIGN = {x: sp.Integer(3), y: sp.Integer(5), t: sp.Integer(7), k: sp.Integer(2), phi: sp.Integer(2), p: sp.Integer(4),
-               ft: sp.Integer(11), dft: sp.Integer(13), d2ft: sp.Integer(-2), dgxt: sp.Integer(3), dlq: sp.Integer(19)}
+               ft: sp.Integer(11), dft: sp.Integer(13), d2ft: sp.Integer(-2), dgxt: sp.Integer(3), dlq: sp.Integer(19), fdx: sp.Integer(23)}
     m, s_, kg = units.meter, units.second, units.kilogram
     _QSUB = {x: Quantity(3 * m), y: Quantity(5 * m), t: Quantity(7 * s_), k: Quantity(2), p: Quantity(4),
              phi: Quantity(2, dimension=angle_type),
              ft: Quantity(11 * m), dft: Quantity(13 * m / s_), d2ft: Quantity(-2 * m / s_**2),
-             dgxt: Quantity(3 * kg / s_), dlq: Quantity(19 * units.joule / m)}
+             dgxt: Quantity(3 * kg / s_), dlq: Quantity(19 * units.joule / m), fdx: Quantity(23 * m)}
 
 
 def _sympy_rewrote(expr) -> bool:
@@ -102,14 +105,19 @@ def _numeric(expr):
         if dim is None:
             return None
         rule[q] = qc_common.to_si(q.scale_factor, dim)
-    return sp.sympify(expr).xreplace(rule).doit()
+    try:
+        return sp.sympify(expr).xreplace(rule).doit()
+    except HardTimeout:
+        raise
+    except Exception:  # pylint: disable=broad-except
+        return None     # not evaluable under the assignment
 
 
 def _compare(mode, what, obs_expr, obs_dim, case, out):
     exp_c, exp_v, exp_d = case["c"], case["v"], case["d"]
     val = _numeric(obs_expr)
     if val is None:
-        out.append((mode, "outside", f"{what}: dimension outside the 8 bases"))
+        out.append((mode, "outside", f"{what}: dimension outside the 8 bases, or the returned expression cannot be evaluated under the assignment"))
         return
     cls, frac = qc_common.classify(val)
     if exp_c in ("zero", "inf", "ninf", "nan"):
@@ -196,6 +204,16 @@ def replay_one(case):
             continue
         if obs != "ok":
             out.append((mode, "violation", f"model accepts ({exp_c}), inference raised {obs}"))
+            continue
+        # derivatives of the undefined functions f, g, L are algebraically independent values: an expression that is
+        # value-equal to the input for every such function contains no derivative the input does not contain
+        try:
+            foreign = [d for d in sp.sympify(oexpr).atoms(sp.Derivative) if d not in sp.sympify(expr).atoms(sp.Derivative)]
+        except Exception:  # pylint: disable=broad-except
+            foreign = []
+        if foreign:
+            out.append((mode, "violation", f"inference: returned expression contains {qc_common.s_(foreign[0])}, "
+                                           f"a derivative that the input {qc_common.s_(expr)} does not contain (not value-equal)"))
             continue
         try:
             with time_limit(5):
